@@ -94,6 +94,10 @@ Proof.
   rewrite ex_stored. intros x [<-|[<-|[]]]; cbn [map fst In]; auto.
 Qed.
 
+(* the LdWrite guard on this history, and on any history of blocks of realistic size *)
+Example ex_history_ok : history_ok ex_h = true.
+Proof. vm_compute. reflexivity. Qed.
+
 (* the conclusions, re-checked by evaluation on this instance *)
 Example ex_layout :
   let payload := ld (enc_header (Some ex_roots) 1) ++ enc_sections [(ex_c1, ex_d1); (ex_c2, ex_d2); (ex_c3, ex_d3)] in
